@@ -121,6 +121,13 @@ func (s *grpcServer) BatchUpdateBlobs(ctx context.Context,
 			}
 		}
 
+		if int64(len(req.Data)) != req.Digest.SizeBytes {
+			s.errorLogger.Printf("%s %s SIZE MISMATCH: expected %d bytes, got %d",
+				errorPrefix, req.Digest.Hash, req.Digest.SizeBytes, len(req.Data))
+			rr.Status.Code = int32(codes.InvalidArgument)
+			continue
+		}
+
 		err = s.cache.Put(ctx, cache.CAS, req.Digest.Hash,
 			int64(len(req.Data)), bytes.NewReader(req.Data))
 		if err != nil && err != io.EOF {
